@@ -1346,7 +1346,7 @@ package formula
 //@   decreases expr, 2
 //@   ensures wfv(result0) && rpost(r)
 //@   ensures[C07,C03] expr.Operator.Token != SK_Equals && errOf(old(world), expr.Left) != nil ==> result1 != nil && world == step(old(world), expr.Left)
-//@   ensures[C07] expr.Operator.Token != SK_Equals && errOf(old(world), expr.Left) == nil ==> world == step(step(old(world), expr.Left), expr.Right)
+//@   ensures[C07,C20] expr.Operator.Token != SK_Equals && errOf(old(world), expr.Left) == nil ==> world == step(step(old(world), expr.Left), expr.Right)
 //@   ensures[C07] expr.Operator.Token != SK_Equals && errOf(old(world), expr.Left) == nil && errOf(step(old(world), expr.Left), expr.Right) != nil ==> result1 != nil
 //@   ensures[C06] expr.Operator.Token == SK_AmpersandAmpersand && errOf(old(world), expr.Left) == nil && errOf(step(old(world), expr.Left), expr.Right) == nil ==> result1 == nil && result0 == (truthy(valOf(old(world), expr.Left)) ? valOf(step(old(world), expr.Left), expr.Right) : valOf(old(world), expr.Left))
 //@   ensures[C06] expr.Operator.Token == SK_BarBar && errOf(old(world), expr.Left) == nil && errOf(step(old(world), expr.Left), expr.Right) == nil ==> result1 == nil && result0 == (truthy(valOf(old(world), expr.Left)) ? valOf(old(world), expr.Left) : valOf(step(old(world), expr.Left), expr.Right))
@@ -1783,9 +1783,9 @@ package formula
 // ---------------------------------------------------------------------------
 
 //@ func NewRunner
-//@   tags [C20,C03,C08]
+//@   tags [C20,C03,C08,C09]
 //@   panics never
-//@   ensures[C20] result != nil && fresh(result) && result.this == nil && result.value != nil && fresh(result.value) && (forall k string :: !mapHas(result.value, k))
+//@   ensures[C20,C09,C08] result != nil && fresh(result) && result.this == nil && result.value != nil && fresh(result.value) && (forall k string :: !mapHas(result.value, k))
 
 //@ func (*Runner).SetThis
 //@   tags [C20,C03]
